@@ -41,8 +41,16 @@ func NewMycatPartitionModShard(shardNum int) *MycatPartitionModShard {
 
 // FindForKey return result of calculated key
 func (m *MycatPartitionModShard) FindForKey(key interface{}) (int, error) {
-	h := hack.Abs(NumValue(key))
-	return int(h % int64(m.ShardNum)), nil
+	return int(absMod(NumValue(key), m.ShardNum)), nil
+}
+
+// absMod returns |v| mod n; |math.MinInt64| does not fit an int64, so the absolute value is taken as uint64
+func absMod(v int64, n int) uint64 {
+	u := uint64(v)
+	if v < 0 {
+		u = -u // two's complement: exact for every int64 including MinInt64
+	}
+	return u % uint64(n)
 }
 
 const (
